@@ -244,6 +244,17 @@ def cases(tier, seed):
             out.append(('e3pairs/' + ','.join(map(str, t)), ('e3pairs', t, b['e3_cap'], b['e3_dev'])))
         if any(x >= 0 for x in t):
             out.append(('e3chunks/' + ','.join(map(str, t)), ('e3chunks', t, b['e3_cap'], b['e3_dev'])))
+    # class NAMES must not matter: the same kinds of cases with non-contiguous, unordered class names (and -7 as unknown)
+    ren = {-1: -7, 0: 9, 1: 4, 2: 6}
+    for t in label_vectors((-1, 0, 1, 2), 2, min(5, b['pairs_len'])):
+        lab = np.array(t)
+        t2 = tuple(ren[x] for x in t)
+        if n_pos_pairs(lab) >= 1 and n_neg_pairs(lab) >= 1:
+            out.append(('pairs/renamed/' + ','.join(map(str, t2)), ('pairs', t2)))
+        if any(x >= 0 for x in t):
+            out.append(('chunks/renamed/' + ','.join(map(str, t2)), ('chunks', t2)))
+        if len(t) >= 4 and knn_ok(t):
+            out.append(('knn/renamed/' + ','.join(map(str, t2)), ('knn', t2)))
     # rotating member (G4): one random longer label vector per kind
     rs = np.random.RandomState(7000 + seed)
     t = tuple(int(x) for x in rs.randint(-1, 3, size=b['pairs_len'] + 3))
